@@ -45,8 +45,11 @@ Kinds == {"generic", "notfound", "cancelled"}
 \* does the call get past step i when that step fails with kind k
 Survives(st, k) == st.ignored \/ (k = "notfound" /\ st.kind \in {"Load", "LoadByNodeId"} /\ st.nf \in {"absent", "stop"})
 
+\* flows whose caller runs the whole call a second time (fault-free: the fault is transient) when the first run fails
+Retried == {"nodeHandleTokenRetry"}
+
 \* outcome of running flow f with a fault of kind k at position pos (0 = no fault)
-Run(f, pos, k) ==
+Run1(f, pos, k) ==
   LET steps == Flows[f]
       n == Len(steps)
       failsAt == IF pos \in 1..n /\ ~Survives(steps[pos], k) THEN pos ELSE 0
@@ -56,6 +59,8 @@ Run(f, pos, k) ==
   IN [res |-> IF failsAt # 0 THEN "error" ELSE "ok",
       handed |-> failsAt = 0 /\ stopsAt = 0,
       effects |-> effects]
+
+Run(f, pos, k) == LET r == Run1(f, pos, k) IN IF f \in Retried /\ r.res = "error" THEN Run1(f, 0, k) ELSE r
 
 \* C13 on the model: an error hands out nothing; a success that hands something out has persisted what it made;
 \* a token consumed for a record is gone before the record exists
